@@ -5,6 +5,8 @@
 // deterministic length-changing text processor, and a shadow text for Insert / EraseIn histories.
 //
 // Sub-properties
+//   literal    fixed texts: the witnesses of the findings of this check (regress/C17/*.case name them by index) and the
+//              strings of the upstream unit tests
 //   enum_tokens5 / enum_tokens6   every text of <=5 (<=6: thorough) symbols over {"@{","@","{","}","|","X1","nomn","-1","a","ℬ"}
 //   extract    Reference::ExtractAll / Parse / ToString vs M6 on generated segment texts
 //   resolve    RefsManager::Resolve / get / OutputRefs (whole + sub-range) under generated term contexts
@@ -31,7 +33,8 @@ std::string esc(const std::string& s) { return pbt::printable(glue::esc(s)); }
 using glue::rng;
 Verdict lift(const glue::Failure& f) { return f.failed() ? pbt::fail(f.oracle, f.msg) : pbt::pass(); }
 
-// key of the listed known finding whose class contains this text ("" if none)
+// key of the listed known finding whose class contains this text ("" if none; all four findings are repaired, so no key
+// is listed any more and nothing is excluded)
 std::string knownClass(const std::string& text, const m6::Scan& sc) { return glue::knownClass(text, sc, [](const char* k) { return pbt::known(k); }); }
 
 // ------------------------------------------------------------------------------------------------ generators
@@ -53,7 +56,7 @@ const std::vector<std::string> kMalformed = {
     "@@@{X1|nomn}", "@{{X1|nomn}}", "@{X1|{nomn}}", "@{foo @{-1|a} @{X2|datv} }", "@{|}@{X1|sing}", "@{1.5|a}", "@a@{X1|nomn}", "@{X1|nomn}@", "@{X1|\xD0\xB6}"};
 // candidates without a documented reading (the model answers Unspecified)
 const std::vector<std::string> kUnspecified = {"@{X1||nomn}", "@{X1|nomn,sing|0}", "@{X1 |nomn}", "@{X1|nomn|0a}", "@{X1|nomn|1per}", "@{X\xD0\xB6|nomn}", "@{X{}|nomn}"};
-// the classes of the listed known findings (rare: they are excluded while the finding is listed)
+// the classes of the findings this check made (repaired in /repo; rare here, the `literal` sub-property replays them every run)
 const std::vector<std::string> kKnownDefect = {"@@{X1|nomn}", "@@{-1|a}", "@{X1|nomn|}", "@{X1|nomn|sing|}", "@{X1|nomn,sing|0|}", "@{40000|t}", "@{-32769|t}",
                                                "@{99999999999|t}", "@{-2147483649|t}", "@{2147483648|}"};
 
@@ -695,14 +698,20 @@ Verdict propEnum6(Ctx& c) { return enumTokens(c, 6); }
 
 }  // namespace
 
+// ASan keeps the stack of every allocation/free in its stack depot; with the default depth of 30 frames rapidcheck's
+// data-dependent call stacks make almost every stack unique and the depot grows by 40-70 KB per case (measured: the RSS
+// of a worker reached 4 GB in the thorough tier and the kernel killed it; live heap stays flat).  Eight frames keep the
+// reports readable, keep the memory flat and halve the run time.  Options given in ASAN_OPTIONS still take precedence.
+extern "C" const char* __asan_default_options() { return "malloc_context_size=8"; }
+
 int main(int argc, char** argv) {
   std::vector<pbt::Prop> props;
   props.push_back({"literal", propLiteral, 0, 0, true, false, "fixed texts: witnesses of the listed findings and the strings of the upstream unit tests"});
   props.push_back({"enum_tokens5", propEnum5, 0, 0, true, false, "every text of <=5 symbols over {a,@{,},|,X1,nomn,-1,@,{,3-byte char}; non-trivial = contains a candidate"});
   props.push_back({"enum_tokens6", propEnum6, 0, 0, true, true, "every text of <=6 symbols over the same alphabet"});
-  props.push_back({"extract", propExtract, 8000, 150000, false, false, ">=2 candidates incl. a well-formed reference with multi-byte text before a reference"});
-  props.push_back({"resolve", propResolve, 6000, 100000, false, false, ">=2 references, multi-byte text before one, some resolution of different length"});
-  props.push_back({"managed", propManaged, 4000, 60000, false, false, ">=2 references, multi-byte text before one, the renaming changes a reference"});
-  props.push_back({"history", propHistory, 4000, 60000, false, false, "an Insert / EraseIn position touches a reference"});
+  props.push_back({"extract", propExtract, 8000, 60000, false, false, ">=2 candidates incl. a well-formed reference with multi-byte text before a reference"});
+  props.push_back({"resolve", propResolve, 6000, 40000, false, false, ">=2 references, multi-byte text before one, some resolution of different length"});
+  props.push_back({"managed", propManaged, 4000, 25000, false, false, ">=2 references, multi-byte text before one, the renaming changes a reference"});
+  props.push_back({"history", propHistory, 5000, 30000, false, false, "an Insert / EraseIn position touches a reference"});
   return pbt::main(argc, argv, "C17", props);
 }
